@@ -348,13 +348,18 @@ def parallel_precheck(obls, nproc):
         if pid == 0:
             os.close(r_fd)
             out = []
+            spent = 0.0          # time this child has put into obligations it could not decide
             try:
                 for i in range(w, len(obls), nproc):
                     o = obls[i]
+                    if spent >= 25.0:
+                        break          # the parent decides the rest under its own per-function budget
                     try:
                         status, model, backend, dt, txt, cand = check(o.pc, o.goal)
                         if status == DISCHARGED:
                             out.append((i, status, backend, dt, txt))
+                        else:
+                            spent += dt
                     except Exception:
                         pass
                 data = pickle.dumps(out)
